@@ -78,8 +78,12 @@ theorem member_cover (A B : List Template) (h : coverT A B = true) (s : Str) (hm
   obtain ⟨b, hb, hle⟩ := h t ht
   exact ⟨b, hb, tmatch_mono t b s hle hmt⟩
 
-/-- the templates without a `+` sign anywhere (known finding `C13-plus-sign`) -/
-def plusFree (T : List Template) : List Template := T.filter fun t => !t.contains (Seg.one [43])
+/-- the templates with every optional sign `[-+]` narrowed to `-`: the values without a `+` sign anywhere (known
+finding `C13-plus-sign`, what is left of it: the components of `rgb()` / `rgba()` / `hsl()`) -/
+def plusFree (T : List Template) : List Template :=
+  T.map fun t => t.map fun
+    | .one ms => if ms == [45, 43] then .one [45] else .one ms
+    | s => s
 
 /-- the reference the registered colour patterns are compared with: the property's own keywords, CSS 2.1 `<color>`
 and the CSS Color 3 additions, white space read as Python's ASCII `\\s` -/
